@@ -172,8 +172,8 @@ func Leaves() []Leaf {
 		{Class: "uintptr", Vals: vals(uintptr(1), 0, 10, math.MaxUint32, math.MaxUint64)},
 		{Class: "float32", Vals: vals(float32(1.5), 0, float32(math.Copysign(0, -1)), 1, -1, 0.1, 16777216, math.MaxFloat32, -math.MaxFloat32, subnormal32, float32(math.Inf(1)), float32(math.Inf(-1)), float32(math.NaN()), 1e10, 3.4e-38)},
 		{Class: "float64", Vals: vals(float64(1.5), 0, math.Copysign(0, -1), 1, -1, 0.1, 1e21, 1e20, 123456789012345680, math.MaxFloat64, -math.MaxFloat64, math.SmallestNonzeroFloat64, math.Inf(1), math.Inf(-1), math.NaN(), 9007199254740993, 1e-7)},
-		{Class: "complex64", Vals: vals(complex64(complex(1.5, 0)), 0, complex(1, 2), complex(0, 1), complex(float32(math.Inf(1)), 0), complex(float32(math.NaN()), 0), complex(-1.5, float32(math.Inf(-1))), complex(0.1, 0.1))},
-		{Class: "complex128", Vals: vals(complex128(complex(1.5, 0)), 0, complex(1, 2), complex(0, 1), complex(math.Inf(1), 0), complex(math.NaN(), 0), complex(-1.5, math.Inf(-1)), complex(0.1, 0.1), complex(math.Copysign(0, -1), 0))},
+		{Class: "complex64", Vals: vals(complex64(complex(1.5, 0)), 0, complex(1, 2), complex(0, 1), complex(float32(math.Inf(1)), 0), complex(float32(math.NaN()), 0), complex(-1.5, float32(math.Inf(-1))), complex(0.1, 0.1), complex(1.5, float32(math.Copysign(0, -1))))},
+		{Class: "complex128", Vals: vals(complex128(complex(1.5, 0)), 0, complex(1, 2), complex(0, 1), complex(math.Inf(1), 0), complex(math.NaN(), 0), complex(-1.5, math.Inf(-1)), complex(0.1, 0.1), complex(math.Copysign(0, -1), 0), complex(1.5, math.Copysign(0, -1)), complex(math.Copysign(0, -1), math.Copysign(0, -1)))},
 		{Class: "string", Vals: vals("ab", "", "a", "你", "你好", "\U0001F600", "a\U0001F600b", "\xff", "a\xffb", "\"quoted\"\n;{}", "0123456789", "é߿ࠀ￿", "\xed\xa0\x80", "null\x00byte")},
 		{Class: "bytes", Vals: vals([]byte{1, 2, 255}, []byte(nil), []byte{}, []byte{0}, []byte("\"};"), []byte("hello world"))},
 		{Class: "bigint", Vals: vals(*bigI("1"), *bigI("0"), *bigI("-1"), *bigI("18446744073709551616"), *bigI("-1180591620717411303424"), *bigI("9"))},
